@@ -71,7 +71,9 @@ func (w *World) injectHostileSlash(l *Link) {
 	pctx := w.P.Ctx()
 	var addr []byte
 	kind := ""
-	switch w.Rnd.Intn(7) {
+	var also []*Link // further links on which the same validator is reported in the same step
+	var alsoAddr [][]byte
+	switch w.Rnd.Intn(9) {
 	case 0: // current key of a validator in this consumer's set
 		if vs, err := pk.GetConsumerValSet(pctx, l.CID); err == nil && len(vs) > 0 {
 			v := vs[w.Rnd.Intn(len(vs))]
@@ -115,6 +117,45 @@ func (w *World) injectHostileSlash(l *Link) {
 				}
 			}
 		}
+	case 6: // a member of this consumer's stored set that is already jailed on the provider (window until the next epoch)
+		jailed := map[string]bool{}
+		for _, sv := range w.StakingSnapshot(pctx) {
+			if sv.Jailed {
+				jailed[consHex(sv.ConsAddr)] = true
+			}
+		}
+		if vs, err := pk.GetConsumerValSet(pctx, l.CID); err == nil {
+			for _, v := range vs {
+				if jailed[consHex(v.ProviderConsAddr)] {
+					if a, err := ccv.TMCryptoPublicKeyToConsAddr(*v.PublicKey); err == nil {
+						addr, kind = a, "in-set-but-jailed"
+						break
+					}
+				}
+			}
+		}
+	case 7: // the same validator reported by every live consumer at once (the reports can meet in one provider block)
+		if vs, err := pk.GetConsumerValSet(pctx, l.CID); err == nil && len(vs) > 0 {
+			v := vs[w.Rnd.Intn(len(vs))]
+			if a, err := ccv.TMCryptoPublicKeyToConsAddr(*v.PublicKey); err == nil {
+				addr, kind = a, "current-on-all-consumers"
+				for _, ol := range w.LiveLinks() {
+					if ol == l || ol.C == nil || ol.C.Halted {
+						continue
+					}
+					if ovs, err := pk.GetConsumerValSet(pctx, ol.CID); err == nil {
+						for _, ov := range ovs {
+							if consHex(ov.ProviderConsAddr) == consHex(v.ProviderConsAddr) {
+								if oa, err := ccv.TMCryptoPublicKeyToConsAddr(*ov.PublicKey); err == nil {
+									also = append(also, ol)
+									alsoAddr = append(alsoAddr, oa)
+								}
+							}
+						}
+					}
+				}
+			}
+		}
 	default:
 		addr, kind = w.KeyPool[w.Rnd.Intn(len(w.KeyPool))].Addr, "pool"
 	}
@@ -151,6 +192,18 @@ func (w *World) injectHostileSlash(l *Link) {
 		w.hostileQueued = map[string]int{}
 	}
 	w.hostileQueued[l.CID]++
+	for i, ol := range also {
+		if inf != stakingtypes.Infraction_INFRACTION_DOWNTIME {
+			break
+		}
+		od := ccv.NewSlashPacketData(abci.Validator{Address: alsoAddr[i], Power: 1 + w.Rnd.Int63n(50)}, vsc, inf)
+		if ol.C.Rec != nil {
+			ol.C.Rec.Tainted = true
+		}
+		ol.C.CApp.ConsumerKeeper.AppendPendingPacket(ol.C.WriteCtx(), ccv.SlashPacket, &ccv.ConsumerPacketData_SlashPacketData{SlashPacketData: od})
+		w.hostileQueued[ol.CID]++
+		w.Event("C08", "hostile-packets-injected")
+	}
 	w.Op("hostile slash packet on %s: addr-kind=%s vsc=%s inf=%s", l.CID, kind, vk, inf)
 	w.Event("C08", "hostile-packets-injected")
 	w.Case("C08", fmt.Sprintf("hostile addr=%s vsc=%s inf=%s", kind, vk, inf))
